@@ -419,7 +419,9 @@ let rec psig_flat_size (PSig (_, _, _, _, _, body)) = match body with
   | PSBMux (sigs, fixed, c, _, groups) ->
     let refs = List.fold_left (fun m g -> m + List.length g) 0 groups in
     let inner = List.fold_left (fun m s -> max m (psig_flat_size s)) 1 sigs in
-    (BZ.to_int (z_of_coqz c) * (List.length fixed) + refs + 1) * inner
+    let c = z_of_coqz c in
+    if BZ.gt c (BZ.of_int 70000) && BZ.equal c (BZ.of_int (List.length groups)) then max_int / 4
+    else (min (BZ.to_int c) 70000 * (List.length fixed) + refs + 1) * inner
   | _ -> 1
 let pnet_cost p =
   List.fold_left (fun m b -> List.fold_left (fun m i -> List.fold_left (fun m pm ->
@@ -444,7 +446,7 @@ let () =
   let verbose = Array.length Sys.argv > 2 && Sys.argv.(2) = "-v" in
   let nets : (string, net * sx) Hashtbl.t = Hashtbl.create 64 in
   let pnets : (string, pNet) Hashtbl.t = Hashtbl.create 64 in
-  let checks = ref 0 and bad = ref 0 and wffail = ref 0 and wfskip = ref 0 and modelskip = ref 0 and loads_ok = ref 0 and loads_err = ref 0 in
+  let checks = ref 0 and bad = ref 0 and wffail = ref 0 and wfskip = ref 0 and modelskip = ref 0 and indom = ref 0 and outdom = ref 0 and loads_ok = ref 0 and loads_err = ref 0 in
   let causes : (string, int) Hashtbl.t = Hashtbl.create 16 in
   let report kind id detail =
     incr bad;
@@ -452,9 +454,16 @@ let () =
   let diff_str a b = match sx_diff "" a b with
     | Some (p, x, y) -> Printf.sprintf "at %s: impl=%s model=%s" p x y
     | None -> "(no structural difference?)" in
+  let budget = try float_of_string (Sys.getenv "VERIF_DRIVER_BUDGET_S") with _ -> 1e9 in
+  let t0 = Unix.gettimeofday () in
+  let records = ref 0 in
   (try while true do
       let line = input_line ic in
-      if String.length line > 2 then begin
+      incr records;
+      if Unix.gettimeofday () -. t0 > budget then begin
+        Printf.printf "BUDGET exhausted after %d records\n" !records; raise End_of_file end;
+      (* a record cut short by a killed harness (no closing parenthesis) is not a record *)
+      if String.length line > 2 && line.[String.length line - 1] = ')' then begin
         let kind, id, off = split3 line in
         (try match kind with
           | "N" ->
@@ -470,7 +479,9 @@ let () =
                if not (sx_match a b) then begin
                  incr bad; Printf.printf "MODELRT %s model load(save n) differs from n %s\n" id (diff_str b a) end
              | Err c -> incr bad; Printf.printf "MODELRT %s model load(save n) = Err %s\n" id (cause_name c));
-            if not (wfb n) then begin incr wffail; Printf.printf "WFFAIL orig %s the projected original network is not well-formed in the model\n" id end
+            if not (wfb n) then begin incr wffail; Printf.printf "WFFAIL orig %s the projected original network is not well-formed in the model\n" id end;
+            (* the hypotheses of load_save, evaluated on the network built through the API *)
+            if in_domain n then incr indom else incr outdom
           | "P" ->
             let sp = String.index_from line off ' ' in
             let enc = String.sub line off (sp - off) in
@@ -518,5 +529,6 @@ let () =
   Hashtbl.iter (fun k v -> Printf.printf "CAUSE %s %d\n" k v) causes;
   Printf.printf "LOADS ok %d err %d\n" !loads_ok !loads_err;
   Printf.printf "WFSKIP %d\n" !wfskip;
+  Printf.printf "DOMAIN in %d out %d\n" !indom !outdom;
   Printf.printf "MODELSKIP %d\n" !modelskip;
   Printf.printf "CHECKS %d MISMATCHES %d WFFAIL %d\n" !checks !bad !wffail
